@@ -58,8 +58,9 @@ REQUIRED = [NS + n for n in (
 MODEL_DEAD = set()       # filled from the driver (`sets`): Xmp.Reset.Dead
 MODEL_PARTIAL = set()    # Xmp.Reset.PartialField
 MODEL_B = set()          # Xmp.Reset.B: members that must not change while a module is played
-# the FAR tempo/vibrato extras behind m.extra are player-run state (restored by libxmp_reset_module_extras)
-RUN_STATE_POINTEES = {"m_extra"}
+# the FAR tempo/vibrato extras behind m.extra are player-run state (restored by libxmp_reset_module_extras);
+# the random generator state advances while playing and is pinned by the property's premise (the harness pins it)
+RUN_STATE_POINTEES = {"m_extra", "rng_state"}
 
 
 def load_model_sets(ck):
